@@ -27,6 +27,8 @@ type RunResult struct {
 	Tasks     []*simrt.Task
 	Timers    []*simrt.TimerRec
 	PendingTimers []int // indexes of library timers still pending after the grace period
+	FreeBulkhead  map[int]int // end of run: TryAcquirePermit successes per bulkhead instance
+	BreakerEnd    map[int][2]int // end of run: breaker state and TryAcquirePermit successes while half-open
 	BubblePanic string
 	Panics    []string
 	SimTime   time.Duration
@@ -94,6 +96,7 @@ func runScenario(t *testing.T, sc *Scenario, cfg simrt.Config) (res *RunResult) 
 					}
 				}
 			}
+			w.postRun(res)
 			// leak registry: pending timers
 			res.Timers = sim.Timers()
 			for i, tr := range res.Timers {
@@ -128,13 +131,39 @@ func runScenario(t *testing.T, sc *Scenario, cfg simrt.Config) (res *RunResult) 
 }
 
 func (w *World) runClient(ci int, c *Client) {
+	held := 0 // bulkhead permits this client holds through the standalone API
 	for oi := range c.Ops {
 		op := &c.Ops[oi]
+		if op.Kind == "bh.release" {
+			if held == 0 {
+				continue // its acquisition failed: nothing to give back
+			}
+			held--
+		}
+		switch op.Kind {
+		case "bh.try", "bh.acquire_wait", "bh.acquire_ctx":
+			before := w.log.lastSeq()
+			w.runStandalone(op)
+			if w.log.acquiredSince(before) {
+				held++
+			}
+			continue
+		}
 		switch op.Kind {
 		case "exec":
 			w.runExec(op)
 		case "sleep":
-			sleep(op.Dur)
+			d := op.Dur
+			if d < 0 {
+				// advance to the next boundary of a window slice of length -d, measured on the wall (fake unix) clock
+				sl := int64(-d)
+				now := time.Now().UnixNano()
+				d = time.Duration(sl - now%sl)
+				if op.N == 1 {
+					d-- // one nanosecond before the boundary
+				}
+			}
+			sleep(d)
 		default:
 			w.runStandalone(op)
 		}
@@ -464,4 +493,36 @@ func (r *RunResult) traceText(max int) []string {
 		out = append(out, r.Log.Ev[i].String())
 	}
 	return out
+}
+
+// postRun probes the stateful policies after quiescence (inside the bubble).
+func (w *World) postRun(res *RunResult) {
+	res.FreeBulkhead = map[int]int{}
+	res.BreakerEnd = map[int][2]int{}
+	if len(res.Sim.Survivors()) > 0 {
+		return // something is still running or stuck: reported by the leak/progress oracles
+	}
+	for i, bh := range w.bhs {
+		if bh == nil {
+			continue
+		}
+		n := 0
+		for n < 64 && bh.TryAcquirePermit() {
+			n++
+		}
+		res.FreeBulkhead[i] = n
+	}
+	for i, br := range w.brs {
+		if br == nil {
+			continue
+		}
+		st := int(br.State())
+		n := 0
+		if st == 2 {
+			for n < 64 && br.TryAcquirePermit() {
+				n++
+			}
+		}
+		res.BreakerEnd[i] = [2]int{st, n}
+	}
 }
